@@ -22,7 +22,7 @@ def ensure_scratch():
         shutil.copy("/repo/Cargo.lock", os.path.join(SCRATCH, "Cargo.lock"))
 
 def reset():
-    sh("git -C %s checkout -- ." % SCRATCH)
+    sh("git -C %s checkout -- .; git -C %s clean -fdq -e target -e Cargo.lock" % (SCRATCH, SCRATCH))
 
 def apply_edits(edits):
     for f, old, new in edits:
